@@ -13,8 +13,14 @@ BY = {"ord": "::dxrt::by_cmp", "partial_ord": "::dxrt::by_pcmp", "eq": "::dxrt::
 PLACEMENTS = ["named", "tuple", "enum"]
 
 
-def item_for(combo, placement, name="Ty"):
+FIELD_TYPES = ["()", "::core::marker::PhantomData<u8>", "(::dxrt::V,)", "[u8; 0]", "&'static str", "::core::option::Option<::dxrt::V>"]
+
+
+def item_for(combo, placement, name="Ty", fty=None):
     attrs = " ".join(M.render_attrs(combo, KEY, BY))
+    if fty is not None:
+        # the attributed field has another type (the verdict does not depend on it); one shape is enough
+        return f"struct {name} {{ f0: ::dxrt::V, {attrs} f1: {fty} }}" if placement != "enum" else f"enum {name} {{ V0, V1({attrs} {fty}, ::dxrt::V) }}"
     # the attributed field is the first, the middle or the last one, depending on the combination
     pos = (hash(combo) & 0xFFFF) % 3 if False else sum(len(o) for o in combo) % 3
     a = [attrs if i == pos else "" for i in range(3)]
@@ -27,8 +33,8 @@ def item_for(combo, placement, name="Ty"):
     return f"enum {name} {{ V0 {{ {a[0]} f0: ::dxrt::V, {a[1]} f1: ::dxrt::V, {a[2]} f2: ::dxrt::V }}, V1 }}"
 
 
-def request(idx, combo, placement, entry, traits=ALL5):
-    item = item_for(combo, placement)
+def request(idx, combo, placement, entry, traits=ALL5, fty=None):
+    item = item_for(combo, placement, fty=fty)
     if entry == "attr":
         return {"id": idx, "entry": "attr", "attr": traits, "item": item}
     return {"id": idx, "entry": "derive", "attr": "", "item": f"#[derive_ex({traits})] {item}"}
@@ -124,6 +130,23 @@ def run(rep, tier, rng):
                           {"combo": list(combo), "placement": pl, "entry": entry, "trait": t, "derived": sub,
                            "expected": e, "observed": g, "request": sub_reqs[o["id"]]})
 
+    # ---- the attributed field's type: the accept / reject verdict must not depend on it ----
+    ft_reqs, ft_meta = [], []
+    for ci, combo in enumerate(combos):
+        for ti, fty in enumerate(FIELD_TYPES):
+            pl = "enum" if (ci + ti) % 3 == 0 else "named"
+            entry = "attr" if (ci + ti) % 2 else "derive"
+            ft_reqs.append(request(len(ft_reqs), combo, pl, entry, fty=fty))
+            ft_meta.append((combo, pl, entry, fty))
+    for o, (combo, pl, entry, fty) in zip(C.expand(ft_reqs), ft_meta):
+        rep.evaluations += 5
+        rep.count("field_type_points", 5)
+        for (t, e, g) in judge(o, combo, entry, traits):
+            rep.violation(sig_for(combo, t, e, g, pl, entry) + f"|field-type={fty}",
+                          f"{pl}/{entry}: field of type `{fty}`: trait {t} expected {e}, expansion gave {g} for {M.render_attrs(combo, KEY, BY)}",
+                          {"combo": list(combo), "placement": pl, "entry": entry, "trait": t, "expected": e, "observed": g,
+                           "request": ft_reqs[o["id"]]})
+
     # ---- misplaced ignore/reverse/key/by on a type or a variant ----
     mis_reqs, mis_meta = [], []
     ARGS = {"ignore": "ignore", "reverse": "reverse", "key": "key = ::dxrt::k(&$)", "by": "by = ::dxrt::by_cmp"}
@@ -132,9 +155,10 @@ def run(rep, tier, rng):
             if argname == "reverse" and a not in ("ord", "partial_ord"):
                 continue
             for where in ("type", "variant"):
+              for deco in ("{}", "bound(), {}", "{}, bound(..)", "bound(u8: Copy, ..), {}", "{}, bound(u8)"):
                 for tr in [ALL5] + M.OWNS[a]:
                     for entry in ("attr", "derive"):
-                        h = f"#[{a}({arg})]"
+                        h = f"#[{a}({deco.format(arg)})]"
                         if where == "type":
                             item = f"{h} struct Ty {{ f0: ::dxrt::V }}" if len(mis_reqs) % 2 else f"{h} enum Ty {{ V0(::dxrt::V), V1 }}"
                         else:
@@ -143,7 +167,7 @@ def run(rep, tier, rng):
                             mis_reqs.append({"id": len(mis_reqs), "entry": "attr", "attr": tr, "item": item})
                         else:
                             mis_reqs.append({"id": len(mis_reqs), "entry": "derive", "attr": "", "item": f"#[derive_ex({tr})] {item}"})
-                        mis_meta.append((a, argname, where, tr, entry))
+                        mis_meta.append((a, argname + ("" if deco == "{}" else "+bound"), where, tr, entry))
     mis_obs = C.expand(mis_reqs)
     for o, (a, argname, where, tr, entry) in zip(mis_obs, mis_meta):
         rep.evaluations += 1
